@@ -39,9 +39,12 @@ def _returns_value(d, node) -> bool:
 def check_reset_before_accumulate(db, chk, rule: str) -> None:
     """(also C19: a restored graph is recomputed by the same method; a set that is only ever added to mixes the edges of two computations)"""
     m = db.mod(CP)
-    f = m.func("CPGraph.critical_path")
-    where = m.loc(f)
-    lp0, site, _hd = _longest_path(m, f)
+    f0 = m.func("CPGraph.critical_path")
+    where = m.loc(f0)
+    lp0, site0, _hd = _longest_path(m, f0)
+    # private helpers of critical_path are read as if written out in place (the reset / accumulation may sit in one of them); the longest-path helper keeps its call
+    f = H.inline_helpers(m, f0, exclude=("_validate_graph",) + ((_hd.name,) if _hd is not None else ()))
+    site = next((n for n in ast.walk(f) if isinstance(n, ast.Call) and ast.dump(n) == ast.dump(site0)), site0)
     lp = [site]
     # ---------------------------------------------------------------- R3 reset before accumulate
     resets = [s for t, val, s in H.assignments(f) if H.is_self_attr(t, "critical_path_edges_set") and isinstance(val, ast.Call) and H.name_id(val.func) == "set" and not val.args]
@@ -49,7 +52,7 @@ def check_reset_before_accumulate(db, chk, rule: str) -> None:
     whole = [s for t, val, s in H.assignments(f) if H.is_self_attr(t, "critical_path_edges_set") and isinstance(val, (ast.SetComp, ast.Set)) or
              (H.is_self_attr(t, "critical_path_edges_set") and isinstance(val, ast.Call) and H.name_id(val.func) == "set" and val.args)]
     top_level = lambda s: any(s is x for x in f.body)
-    ok = (len(resets) == 1 and top_level(resets[0]) and resets[0].lineno > lp[0].lineno and all(a.lineno > resets[0].lineno for a in accum) and bool(accum)) or (len(whole) == 1 and not accum)
+    ok = (len(resets) == 1 and top_level(resets[0]) and H.before(lp[0], resets[0]) and all(H.before(resets[0], a) for a in accum) and bool(accum)) or (len(whole) == 1 and not accum)
     chk.ob(rule, "the edge set is emptied (or rebuilt as a whole) on every computation, after the new path is known and before edges are added", ok, where,
            found={"resets": [s.lineno for s in resets], "accumulations": [ast.unparse(a)[:60] for a in accum]}, accepted="self.critical_path_edges_set = set()  before the accumulation loop",
            why="without the reset a recomputation after re-weighting reports the union of the old and the new path's edges")
@@ -129,16 +132,17 @@ def run(db, chk) -> None:
            why="writing the stored CPEdge weight back on every edge silently undoes a what-if re-weighting before the path is recomputed")
     # (private helpers and generator helpers of critical_path are read as if written out in place)
     f_in = H.inline_helpers(m, f, exclude=("_validate_graph",))
-    obj_reads = [n for n in ast.walk(f_in) if isinstance(n, ast.Subscript) and lit(n.slice) == "object"]
+    obj_reads = [n for g_ in [f_in] + [x for x in H.with_private_callees(m, f) if x is not f] for n in ast.walk(g_) if isinstance(n, ast.Subscript) and lit(n.slice) == "object"]
     chk.ob("C09.R1-key-agreement", "critical edges are read back from the 'object' attribute written by _add_edge", (wkeys.get("object") == "edge") if obj_reads or wkeys.get("object") != "edge" else None, where,
            found={"written": wkeys.get("object"), "reads": len(obj_reads)}, accepted="object=edge ... self.edges[u, v]['object']")
     # ---------------------------------------------------------------- R2 derivation of the sets
-    ev = [val for t, val, s in H.assignments(f) if H.is_self_attr(t, "critical_path_events_set")]
-    okev = len(ev) == 1 and isinstance(ev[0], ast.SetComp) and ast.unparse(ev[0].elt).replace(" ", "") == "self.node_list[nid].ev_idx" and len(ev[0].generators) == 1 \
-        and H.is_self_attr(ev[0].generators[0].iter, "critical_path_nodes") and not ev[0].generators[0].ifs and H.name_id(ev[0].generators[0].target) == "nid"
+    ev = [val for t, val, s in H.assignments(f_in) if H.is_self_attr(t, "critical_path_events_set")]
+    okev = len(ev) == 1 and isinstance(ev[0], ast.SetComp) and len(ev[0].generators) == 1 and isinstance(ev[0].generators[0].target, ast.Name) \
+        and ast.unparse(ev[0].elt).replace(" ", "") == f"self.node_list[{ev[0].generators[0].target.id}].ev_idx" \
+        and H.is_self_attr(ev[0].generators[0].iter, "critical_path_nodes") and not ev[0].generators[0].ifs
     chk.ob("C09.R2-derivation", "critical events = the events of ALL nodes of the path", okev, where, found=[ast.unparse(e) for e in ev], accepted="{self.node_list[nid].ev_idx for nid in self.critical_path_nodes}")
     # consecutive pairs
-    form = _pair_form(f_in)
+    form = _pair_form(f_in, [g_ for g_ in H.with_private_callees(m, f) if g_ is not f])
     chk.ob("C09.R2-derivation", "critical edges = the graph edges between CONSECUTIVE nodes of the path, each read from 'object'", form["ok"], where, found=form["found"],
            accepted="u = first; for each next v: add(self.edges[u, v]['object']); u = v   |   for u, v in zip(path, path[1:])")
     check_reset_before_accumulate(db, chk, "C09.R3-reset-before-accumulate")
@@ -180,7 +184,7 @@ class _Prefixed:
         return getattr(self.chk, n)
 
 
-def _pair_form(f):
+def _pair_form(f, helpers=None):
     # idiom (a): u = next(it) ... loop: v = next(it); e = self.edges[u, v]["object"]; <set>.add(e); u = v
     its = [(H.name_id(t), s) for t, val, s in H.assignments(f) if isinstance(val, ast.Call) and H.name_id(val.func) == "iter" and val.args and H.is_self_attr(val.args[0], "critical_path_nodes")]
     loops = [n for n in ast.walk(f) if isinstance(n, (ast.While, ast.For))]
@@ -237,14 +241,26 @@ def _pair_form(f):
             if other_upd or len(advance) != 1 or vdef_line > adds[0].lineno:
                 return {"ok": None, "found": ["pairing idiom not recognised"] + shown}
             return {"ok": True, "found": shown}
-    # idiom (b): for u, v in zip(path, path[1:]): ... self.edges[u, v]["object"]
-    for n, b in H.find_match("zip($$p, $$p[1:])", f):
+    # idiom (b): for u, v in zip(path, path[1:]) / pairwise(path): ... self.edges[u, v]["object"]  (in the function or in a private helper it calls)
+    units = [f] + list(helpers or [])
+    pairs = [(g_, n, b) for g_ in units for n, b in H.find_match("zip($$p, $$p[1:])", g_)]
+    pairs += [(g_, n, {"__mvx_p": n.args[0]}) for g_ in units for n in ast.walk(g_) if isinstance(n, ast.Call) and call_name(n).split(".")[-1] == "pairwise" and len(n.args) == 1]
+    for g_, n, b in pairs:
         if "critical_path_nodes" in ast.unparse(b["__mvx_p"]) or isinstance(b["__mvx_p"], ast.Name):
-            objs = H.find_match("self.edges[$u, $v]['object']", f)
-            filt = [g for c in ast.walk(f) if isinstance(c, (ast.GeneratorExp, ast.SetComp, ast.ListComp)) and any(x is n for x in ast.walk(c)) for g in c.generators if g.ifs]
+            objs = H.find_match("self.edges[$u, $v]['object']", g_)
+            filt = [g for c in ast.walk(g_) if isinstance(c, (ast.GeneratorExp, ast.SetComp, ast.ListComp)) and any(x is n for x in ast.walk(c)) for g in c.generators if g.ifs]
             if filt:
                 return {"ok": False, "found": ["pairs filtered by " + ast.unparse(filt[0].ifs[0])[:80]]}
-            return {"ok": len(objs) == 1, "found": [ast.unparse(n)]}
+            # the loop variables of the pairing are the subscripts of the edge lookup, in (previous, current) order
+            holder = next((x for x in ast.walk(g_) if isinstance(x, (ast.For, ast.comprehension)) and x.iter is n), None)
+            tv = [H.name_id(e_) for e_ in holder.target.elts] if holder is not None and isinstance(holder.target, ast.Tuple) and len(holder.target.elts) == 2 else None
+            if tv is None or len(objs) != 1:
+                return {"ok": None, "found": ["pairing idiom not recognised", ast.unparse(n)[:80]]}
+            sub = objs[0][0].value.slice
+            got = [H.name_id(e_) for e_ in sub.elts] if isinstance(sub, ast.Tuple) else None
+            if got != tv:
+                return {"ok": False if got == tv[::-1] else None, "found": [f"edge looked up for {got}, pairs are {tv}"]}
+            return {"ok": True, "found": [ast.unparse(n)[:80]]}
     return {"ok": None, "found": ["pairing idiom not recognised"]}
 
 
